@@ -22,21 +22,23 @@ Definition recval (p : list Z) : Z := match p with [_; _; _; v] => v | _ => 0 en
 Fixpoint sumrec (l s : Z) (log : list logent) : Z :=
   match log with [] => 0 | (l', s', p) :: r => (if (l' =? l) && (s' =? s) then recval p else 0) + sumrec l s r end.
 
-Definition D (p0 l0 v0 : Z -> Z) (w : fw) (en : fenv) : Prop :=
+Definition D (p0 l0 v0 a0 : Z -> Z) (w : fw) (en : fenv) : Prop :=
   forall d, d_produced (getd w d) = p0 d + cntrec L_SUPPLIED d (datalog en) /\
             level_ok (d_level (getd w d)) (l0 d) (lastrec L_LEVEL d (datalog en)) /\
-            (d_kind (getd w d) = KSink -> d_value_received (getd w d) = v0 d + sumrec L_RECEIVED d (datalog en)).
+            (d_kind (getd w d) = KSink -> d_value_received (getd w d) = v0 d + sumrec L_RECEIVED d (datalog en)) /\
+            (amem d (f_devs w) = true -> d_accepts (getd w d) = a0 d + cntrec L_RECEIVED d (datalog en)).
 
 Section LogInv.
 Variable ws : nat -> Z.
-Variables p0 l0 v0 : Z -> Z.
+Variables p0 l0 v0 a0 : Z -> Z.
 Notation venv := (venv ws).
-Notation D := (D p0 l0 v0).
+Notation D := (D p0 l0 v0 a0).
 
 Definition logsame (en en' : fenv) : Prop :=
   forall d, cntrec L_SUPPLIED d (datalog en') = cntrec L_SUPPLIED d (datalog en) /\
             lastrec L_LEVEL d (datalog en') = lastrec L_LEVEL d (datalog en) /\
-            sumrec L_RECEIVED d (datalog en') = sumrec L_RECEIVED d (datalog en).
+            sumrec L_RECEIVED d (datalog en') = sumrec L_RECEIVED d (datalog en) /\
+            cntrec L_RECEIVED d (datalog en') = cntrec L_RECEIVED d (datalog en).
 
 Lemma logsame_cmd en c en' : lemit_ok c -> apply_cmd ws en (to_cmd_f c) = Ok en' -> logsame en en'.
 Proof.
@@ -52,32 +54,37 @@ Lemma logsame_cmds l : Forall lemit_ok l -> forall en en', apply_cmds ws en (map
 Proof.
   induction 1 as [|c l Q _ IH]; intros en en' H; cbn in H; [injection H as <-; intro d; auto|].
   destruct (apply_cmd ws en (to_cmd_f c)) as [en1|en1] eqn:E; [|discriminate].
-  intro d. destruct (IH en1 en' H d) as [A [B C]]. destruct (logsame_cmd en c en1 Q E d) as [A1 [B1 C1]]. rewrite A, B, C. auto.
+  intro d. destruct (IH en1 en' H d) as [A [B [C C']]]. destruct (logsame_cmd en c en1 Q E d) as [A1 [B1 [C1 C1']]]. rewrite A, B, C, C'. auto.
 Qed.
 
 Definition LD (en0 : fenv) (w : fw) : Prop := okf w = true -> forall en, venv en0 w = Ok en -> D w en.
 
-Lemma D_logsame w w' en en' :
-  logsame en en' -> (forall d, d_produced (getd w' d) = d_produced (getd w d) /\ d_level (getd w' d) = d_level (getd w d) /\
-              d_value_received (getd w' d) = d_value_received (getd w d) /\ d_kind (getd w' d) = d_kind (getd w d)) ->
-  D w en -> D w' en'.
+(** the fields the links read, and the set of devices, are the same in both worlds *)
+Definition same_fields (w w' : fw) : Prop :=
+  forall d, d_produced (getd w' d) = d_produced (getd w d) /\ d_level (getd w' d) = d_level (getd w d) /\
+            d_value_received (getd w' d) = d_value_received (getd w d) /\ d_kind (getd w' d) = d_kind (getd w d) /\
+            d_accepts (getd w' d) = d_accepts (getd w d) /\ amem d (f_devs w') = amem d (f_devs w).
+
+Lemma D_logsame w w' en en' : logsame en en' -> same_fields w w' -> D w en -> D w' en'.
 Proof.
-  intros LS F H d. destruct (LS d) as [A [B C]]. destruct (F d) as [F1 [F2 [F3 F4]]]. destruct (H d) as [H1 [H2 H3]]. rewrite A, B, C, F1, F2, F3, F4. auto.
+  intros LS F H d. destruct (LS d) as [A [B [C C']]]. destruct (F d) as [F1 [F2 [F3 [F4 [F5 F6]]]]]. destruct (H d) as [H1 [H2 [H3 H4]]].
+  rewrite A, B, C, C', F1, F2, F3, F4, F5, F6. auto.
 Qed.
 
 Lemma logsame_refl en : logsame en en.
 Proof. intro d. auto. Qed.
 
-Lemma fields_updd_lsafe w d f : lsafe f -> forall d', d_produced (getd (updd w d f) d') = d_produced (getd w d') /\ d_level (getd (updd w d f) d') = d_level (getd w d') /\
-  d_value_received (getd (updd w d f) d') = d_value_received (getd w d') /\ d_kind (getd (updd w d f) d') = d_kind (getd w d').
+Lemma fields_updd_lsafe w d f : lsafe f -> same_fields w (updd w d f).
 Proof.
-  intros LS d'. rewrite getd_updd. destruct ((d' =? d) && amem d (f_devs w)) eqn:C; [|auto].
-  apply andb_true_iff in C. destruct C as [C _]. apply Z.eqb_eq in C. subst d'. apply LS.
+  intros LS d'. rewrite amem_updd. rewrite getd_updd. destruct ((d' =? d) && amem d (f_devs w)) eqn:C; [|repeat split; reflexivity].
+  apply andb_true_iff in C. destruct C as [C _]. apply Z.eqb_eq in C. subst d'. destruct (LS (getd w d)) as [A [B [C [E G]]]]. repeat split; assumption.
 Qed.
 
+Lemma same_fields_devs w w' : f_devs w' = f_devs w -> same_fields w w'.
+Proof. intros DV d. rewrite (getd_other_fields w w' d DV), DV. repeat split; reflexivity. Qed.
+
 Lemma LD_quiet en0 w w' :
-  (forall d, d_produced (getd w' d) = d_produced (getd w d) /\ d_level (getd w' d) = d_level (getd w d) /\
-              d_value_received (getd w' d) = d_value_received (getd w d) /\ d_kind (getd w' d) = d_kind (getd w d)) ->
+  same_fields w w' ->
   (exists l, f_out w' = l ++ f_out w /\ Forall lemit_ok l) -> (okf w' = true -> okf w = true) -> LD en0 w -> LD en0 w'.
 Proof.
   intros F [l [O Q]] OK L OKF en' V. rewrite (venv_app ws en0 w w' l O) in V. destruct (venv en0 w) as [en|en] eqn:V0; [|discriminate].
@@ -86,17 +93,10 @@ Proof.
 Qed.
 
 Lemma supplied_fields nw v x : d_produced (t_supplied nw v x) = 1 + d_produced x /\ d_level (t_supplied nw v x) = d_level x /\
-  d_value_received (t_supplied nw v x) = d_value_received x /\ d_kind (t_supplied nw v x) = d_kind x.
+  d_value_received (t_supplied nw v x) = d_value_received x /\ d_kind (t_supplied nw v x) = d_kind x /\ d_accepts (t_supplied nw v x) = d_accepts x.
 Proof. unfold t_supplied, dev_add_value. destruct (- v =? 0); repeat split; reflexivity. Qed.
 
-Lemma accept_sink_fields nw it x : d_produced (t_accept_sink nw it x) = d_produced x /\ d_level (t_accept_sink nw it x) = d_level x /\
-  d_value_received (t_accept_sink nw it x) = item_value it + d_value_received x /\ d_kind (t_accept_sink nw it x) = d_kind x.
-Proof.
-  unfold t_accept_sink, t_accept, dev_set_wait, dev_add_value. cbv zeta.
-  repeat match goal with |- context[if ?b then _ else _] => destruct b | |- context[match d_wait_since ?y with _ => _ end] => destruct (d_wait_since y) end; repeat split; reflexivity.
-Qed.
-
-(** the record that goes with a counter change *)
+(** the records that go with a counter change *)
 Lemma LD_record en0 w w1 lb d pl :
   LD en0 w -> f_out w1 = f_out w -> f_err w1 = f_err w ->
   (forall en, D w en -> D (data w1 lb d pl) (add_data en lb d pl)) -> LD en0 (data w1 lb d pl).
@@ -105,82 +105,117 @@ Proof.
   rewrite (venv_same ws en0 w w1 O) in V0. apply STEP. apply (L ltac:(unfold okf in *; cbn in OKF; rewrite <- E; exact OKF) en V0).
 Qed.
 
-(** one record about device [d] together with the change of [d] it reports: the three links survive when the supplied-parts counter moves
-    with a supplied record only, a level record carries the new level, and a sink's received value moves by the recorded value *)
+Lemma LD_record2 en0 w w1 lb d pl lb2 pl2 :
+  LD en0 w -> f_out w1 = f_out w -> f_err w1 = f_err w ->
+  (forall en, D w en -> D (data (data w1 lb d pl) lb2 d pl2) (add_data (add_data en lb d pl) lb2 d pl2)) -> LD en0 (data (data w1 lb d pl) lb2 d pl2).
+Proof.
+  intros L O E STEP OKF en' V. unfold data in V. destruct (venv_emit ws en0 _ _ en' V) as [en1 [V1 AC1]]. cbn in AC1. injection AC1 as <-.
+  destruct (venv_emit ws en0 w1 _ en1 V1) as [en [V0 AC]]. cbn in AC. injection AC as <-.
+  rewrite (venv_same ws en0 w w1 O) in V0. apply STEP. apply (L ltac:(unfold okf in *; cbn in OKF; rewrite <- E; exact OKF) en V0).
+Qed.
+
+(** one record about device [d] together with the change of [d] it reports: the links survive when the supplied-parts counter moves
+    with a supplied record only, a level record carries the new level, and with a received record (only) the accept counter moves by one
+    and a sink's received value by the recorded value *)
 Lemma D_rec w w1 en d lb pl :
-  D w en -> (forall d', d' <> d -> getd w1 d' = getd w d') ->
+  D w en -> (forall d', d' <> d -> getd w1 d' = getd w d') -> (forall d', amem d' (f_devs w1) = amem d' (f_devs w)) ->
   let x := getd w d in let x' := getd w1 d in
   d_kind x' = d_kind x ->
   d_produced x' = d_produced x + (if lb =? L_SUPPLIED then 1 else 0) ->
   (if lb =? L_LEVEL then exists t, pl = [t; d_level x'] else d_level x' = d_level x) ->
   (d_kind x = KSink -> d_value_received x' = d_value_received x + (if lb =? L_RECEIVED then recval pl else 0)) ->
+  (amem d (f_devs w) = true -> d_accepts x' = d_accepts x + (if lb =? L_RECEIVED then 1 else 0)) ->
   D (data w1 lb d pl) (add_data en lb d pl).
 Proof.
-  intros H OTH x x' K P LV VR d'.
-  change (getd (data w1 lb d pl) d') with (getd w1 d'). cbn [datalog add_data cntrec lastrec sumrec].
-  destruct (H d') as [H1 [H2 H3]]. destruct (Z.eqb_spec d d') as [<-|N].
-  - rewrite !andb_true_r. fold x x'. fold x in H1, H2, H3. split; [|split].
+  intros H OTH AME x x' K P LV VR AC d'.
+  change (getd (data w1 lb d pl) d') with (getd w1 d'). change (f_devs (data w1 lb d pl)) with (f_devs w1).
+  cbn [datalog add_data cntrec lastrec sumrec]. rewrite AME.
+  destruct (H d') as [H1 [H2 [H3 H4]]]. destruct (Z.eqb_spec d d') as [<-|N].
+  - rewrite !andb_true_r. fold x x'. fold x in H1, H2, H3, H4. split; [|split; [|split]].
     + rewrite P, H1. destruct (lb =? L_SUPPLIED); lia.
     + destruct (lb =? L_LEVEL); [exact LV|rewrite LV; exact H2].
     + intro KS. rewrite K in KS. rewrite (VR KS), (H3 KS). destruct (lb =? L_RECEIVED); lia.
+    + intro AM. rewrite (AC AM), (H4 AM). destruct (lb =? L_RECEIVED); lia.
   - rewrite !andb_false_r. rewrite (OTH d' (not_eq_sym N)). cbv iota. rewrite !Z.add_0_l. auto.
 Qed.
 
 Lemma updd_other w d f d' : d' <> d -> getd (updd w d f) d' = getd w d'.
 Proof. intro N. rewrite getd_updd. apply Z.eqb_neq in N. rewrite N. reflexivity. Qed.
 
+Lemma amem_map_snd {V} (g : Z * V -> V) d (l : list (Z * V)) : amem d (map (fun e => (fst e, g e)) l) = amem d l.
+Proof. unfold amem. induction l as [|[k y] l IH]; cbn; [reflexivity|]. destruct (d =? k); [reflexivity|exact IH]. Qed.
+
 Theorem lstep_LD nw en0 w w' : lstep nw w w' -> LD en0 w -> LD en0 w'.
 Proof.
-  intros S L. destruct S as [w d f LS|w c EO|w w' DV O OK|w w' DEAD|w pid f|w d v id AM|w d it1|w d|w d it1 NK|w d it1 AM KS].
+  intros S L. destruct S as [w d f LS|w c EO|w w' DV O OK|w w' DEAD|w pid f|w d v id AM|w d it1 KB|w d|w d f it1 AF].
   - apply (LD_quiet en0 w); [apply fields_updd_lsafe, LS|exists []; split; [reflexivity|constructor]|auto|exact L].
-  - apply (LD_quiet en0 w); [intro; auto|exists [c]; split; [reflexivity|constructor; [exact EO|constructor]]|auto|exact L].
-  - apply (LD_quiet en0 w); [intro d; rewrite (getd_other_fields w w' d DV); auto|exact O|exact OK|exact L].
+  - apply (LD_quiet en0 w); [apply same_fields_devs; reflexivity|exists [c]; split; [reflexivity|constructor; [exact EO|constructor]]|auto|exact L].
+  - apply (LD_quiet en0 w); [apply same_fields_devs, DV|exact O|exact OK|exact L].
   - intros OKF. congruence.
   - apply (LD_quiet en0 w); [|exists []; split; [reflexivity|constructor]|auto|exact L].
-    intro d. unfold upd_part_everywhere, getd. cbn. induction (f_devs w) as [|[k y] l IH]; cbn; [auto|]. destruct (d =? k); [cbn; auto|exact IH].
+    intro d. unfold upd_part_everywhere. cbn [f_devs set]. split; [|split; [|split; [|split; [|split]]]].
+    6: apply (amem_map_snd (fun e => upd_part_in_dev pid f (snd e))).
+    all: unfold getd; cbn; induction (f_devs w) as [|[k y] l IH]; cbn; [reflexivity|]; destruct (d =? k); [cbn; destruct y; reflexivity|exact IH].
   - (* a part supplied: counter and record together *)
     apply (LD_record en0 w); [exact L|reflexivity|reflexivity|]. intros en H.
-    apply (D_rec w); [exact H|intros; apply updd_other; assumption|..]; cbv zeta; rewrite getd_updd, Z.eqb_refl, AM; cbn [andb].
-    all: destruct (supplied_fields nw v (getd w d)) as [E1 [E2 [E3 E4]]].
+    apply (D_rec w); [exact H|intros; apply updd_other; assumption|intro; apply amem_updd|..]; cbv zeta; rewrite getd_updd, Z.eqb_refl, AM; cbn [andb].
+    all: destruct (supplied_fields nw v (getd w d)) as [E1 [E2 [E3 [E4 E5]]]].
     + exact E4.
     + change (L_SUPPLIED =? L_SUPPLIED) with true. cbv iota. rewrite E1. lia.
     + change (L_SUPPLIED =? L_LEVEL) with false. cbv iota. exact E2.
     + intros _. change (L_SUPPLIED =? L_RECEIVED) with false. cbv iota. rewrite E3. lia.
-  - (* a buffer takes a part in: level and record together *)
-    cbv zeta. apply (LD_record en0 w); [exact L|reflexivity|reflexivity|]. intros en H.
-    assert (FS : forall {X} (pr : dev -> X), (forall y, pr (t_accept_buffer nw it1 y) = pr y) ->
-                 pr (getd (updd w d (t_accept_buffer nw it1)) d) = pr (getd w d)) by (intros X pr Q; apply getd_updd_field, Q).
-    apply (D_rec w); [exact H|intros; apply updd_other; assumption|..]; cbv zeta.
-    + apply FS. intro y. unfold t_accept_buffer, t_accept, dev_set_wait. destruct (d_wait_since y); reflexivity.
-    + change (L_LEVEL =? L_SUPPLIED) with false. cbv iota. rewrite Z.add_0_r. apply FS. intro y. reflexivity.
-    + change (L_LEVEL =? L_LEVEL) with true. cbv iota. eexists; reflexivity.
-    + intros _. change (L_LEVEL =? L_RECEIVED) with false. cbv iota. rewrite Z.add_0_r. apply FS. intro y. reflexivity.
+    + intros _. change (L_SUPPLIED =? L_RECEIVED) with false. cbv iota. rewrite E5. lia.
+  - (* a buffer takes a part in: level with its record, accept counter with the received-part record *)
+    cbv zeta. unfold rec_part.
+    set (wB := updd w d (t_accept_buffer nw it1)).
+    apply (LD_record2 en0 w wB); [exact L|reflexivity|reflexivity|]. intros en H.
+    set (f1 := fun y : dev => (t_accept_buffer nw it1 y) <| d_accepts := d_accepts y |>).
+    set (pl1 := [nw; d_level (getd wB d)]).
+    assert (FB : forall y, d_kind (t_accept_buffer nw it1 y) = d_kind y /\ d_produced (t_accept_buffer nw it1 y) = d_produced y /\
+                           d_value_received (t_accept_buffer nw it1 y) = d_value_received y /\ d_accepts (t_accept_buffer nw it1 y) = 1 + d_accepts y).
+    { intro y. unfold t_accept_buffer, t_accept, dev_set_wait. destruct (d_wait_since _); repeat split; reflexivity. }
+    assert (LVL : d_level (getd (updd w d f1) d) = d_level (getd wB d)).
+    { unfold wB. rewrite !getd_updd, Z.eqb_refl. cbn [andb]. destruct (amem d (f_devs w)); reflexivity. }
+    assert (HA : D (data (updd w d f1) L_LEVEL d pl1) (add_data en L_LEVEL d pl1)).
+    { apply (D_rec w); [exact H|intros; apply updd_other; assumption|intro; apply amem_updd|..]; cbv zeta.
+      - apply getd_updd_field. intro y. apply (FB y).
+      - change (L_LEVEL =? L_SUPPLIED) with false. cbv iota. rewrite Z.add_0_r. apply getd_updd_field. intro y. apply (FB y).
+      - change (L_LEVEL =? L_LEVEL) with true. cbv iota. exists nw. unfold pl1. rewrite LVL. reflexivity.
+      - intros _. change (L_LEVEL =? L_RECEIVED) with false. cbv iota. rewrite Z.add_0_r. apply getd_updd_field. intro y. apply (FB y).
+      - intros _. change (L_LEVEL =? L_RECEIVED) with false. cbv iota. rewrite Z.add_0_r. apply getd_updd_field. intro y. reflexivity. }
+    apply (D_rec (data (updd w d f1) L_LEVEL d pl1) (data wB L_LEVEL d pl1)); [exact HA|..]; cbv zeta.
+    + intros d' N. change (getd (data ?a ?b ?c ?e) d') with (getd a d'). unfold wB. rewrite !updd_other by exact N. reflexivity.
+    + intro d'. change (f_devs (data ?a ?b ?c ?e)) with (f_devs a). unfold wB. rewrite !amem_updd. reflexivity.
+    + change (getd (data ?a ?b ?c ?e) d) with (getd a d). unfold wB. rewrite !getd_updd, Z.eqb_refl. cbn [andb]. destruct (amem d (f_devs w)); reflexivity.
+    + change (L_RECEIVED =? L_SUPPLIED) with false. cbv iota. rewrite Z.add_0_r.
+      change (getd (data ?a ?b ?c ?e) d) with (getd a d). unfold wB. rewrite !getd_updd, Z.eqb_refl. cbn [andb]. destruct (amem d (f_devs w)); reflexivity.
+    + change (L_RECEIVED =? L_LEVEL) with false. cbv iota. change (getd (data ?a ?b ?c ?e) d) with (getd a d). symmetry. exact LVL.
+    + change (getd (data ?a ?b ?c ?e) d) with (getd a d). intro KS. exfalso.
+      rewrite (getd_updd_field d_kind w d f1 d) in KS; [congruence|]. intro y. apply (FB y).
+    + change (getd (data ?a ?b ?c ?e) d) with (getd a d). change (f_devs (data ?a ?b ?c ?e)) with (f_devs a). rewrite amem_updd. intro AM.
+      change (L_RECEIVED =? L_RECEIVED) with true. cbv iota. unfold wB. rewrite !getd_updd, Z.eqb_refl, AM. cbn [andb].
+      destruct (FB (getd w d)) as [_ [_ [_ E]]]. rewrite E. change (d_accepts (f1 (getd w d))) with (d_accepts (getd w d)). lia.
   - (* the head of a buffer leaves: level and record together *)
     cbv zeta. apply (LD_record en0 w); [exact L|reflexivity|reflexivity|]. intros en H.
     assert (FS : forall {X} (pr : dev -> X), (forall y, pr (t_buf_pop nw y) = pr y) ->
                  pr (getd (updd w d (t_buf_pop nw)) d) = pr (getd w d)) by (intros X pr Q; apply getd_updd_field, Q).
     assert (TB : forall {X} (pr : dev -> X) y, (forall g b, pr (y <| d_level ::= g |> <| d_buf := b |>) = pr y) -> pr (t_buf_pop nw y) = pr y).
     { intros X pr y Q. unfold t_buf_pop. destruct (d_buf y) as [|[? ?] ?]; [reflexivity|]. destruct (0 <? _); first [reflexivity|apply Q]. }
-    apply (D_rec w); [exact H|intros; apply updd_other; assumption|..]; cbv zeta.
+    apply (D_rec w); [exact H|intros; apply updd_other; assumption|intro; apply amem_updd|..]; cbv zeta.
     + apply FS. intro y. apply TB. reflexivity.
     + change (L_LEVEL =? L_SUPPLIED) with false. cbv iota. rewrite Z.add_0_r. apply FS. intro y. apply TB. reflexivity.
     + change (L_LEVEL =? L_LEVEL) with true. cbv iota. eexists; reflexivity.
     + intros _. change (L_LEVEL =? L_RECEIVED) with false. cbv iota. rewrite Z.add_0_r. apply FS. intro y. apply TB. reflexivity.
-  - (* a received-part record of a device that is not a sink *)
+    + intros _. change (L_LEVEL =? L_RECEIVED) with false. cbv iota. rewrite Z.add_0_r. apply FS. intro y. apply TB. reflexivity.
+  - (* a device takes a part in: accept counter (and a sink's counters) with the received-part record *)
     unfold rec_part. apply (LD_record en0 w); [exact L|reflexivity|reflexivity|]. intros en H.
-    apply (D_rec w); [exact H|reflexivity|..]; cbv zeta.
-    + reflexivity.
-    + change (L_RECEIVED =? L_SUPPLIED) with false. cbv iota. lia.
-    + change (L_RECEIVED =? L_LEVEL) with false. cbv iota. reflexivity.
-    + intro KS. contradiction.
-  - (* a sink takes a part in: counters and record together *)
-    unfold rec_part. apply (LD_record en0 w); [exact L|reflexivity|reflexivity|]. intros en H.
-    apply (D_rec w); [exact H|intros; apply updd_other; assumption|..]; cbv zeta; rewrite getd_updd, Z.eqb_refl, AM; cbn [andb].
-    all: destruct (accept_sink_fields nw it1 (getd w d)) as [E1 [E2 [E3 E4]]].
-    + exact E4.
-    + change (L_RECEIVED =? L_SUPPLIED) with false. cbv iota. rewrite E1. lia.
-    + change (L_RECEIVED =? L_LEVEL) with false. cbv iota. exact E2.
-    + intros _. change (L_RECEIVED =? L_RECEIVED) with true. cbv iota. cbn [recval]. rewrite E3. lia.
+    cbv zeta in AF. destruct AF as [A1 [A2 [A3 [A4 A5]]]].
+    apply (D_rec w); [exact H|intros; apply updd_other; assumption|intro; apply amem_updd|..]; cbv zeta.
+    + exact A1.
+    + change (L_RECEIVED =? L_SUPPLIED) with false. cbv iota. rewrite A2. lia.
+    + change (L_RECEIVED =? L_LEVEL) with false. cbv iota. exact A3.
+    + intro KS. change (L_RECEIVED =? L_RECEIVED) with true. cbv iota. cbn [recval]. rewrite (A5 KS). lia.
+    + intro AM. change (L_RECEIVED =? L_RECEIVED) with true. cbv iota. rewrite (A4 AM). lia.
 Qed.
 
 Theorem RL_LD nw en0 w w' : RL nw w w' -> LD en0 w -> LD en0 w'.
@@ -191,7 +226,7 @@ Lemma LD_start en w : f_out w = [] -> D w en -> LD en w.
 Proof. intros O H _ en' V. unfold FloorIdle.venv in V. rewrite O in V. cbn in V. injection V as <-. exact H. Qed.
 
 Lemma D_same w w' en en' : f_devs w' = f_devs w -> datalog en' = datalog en -> D w en -> D w' en'.
-Proof. intros DV DL H d. rewrite (getd_other_fields w w' d DV), DL. apply H. Qed.
+Proof. intros DV DL H d. rewrite (getd_other_fields w w' d DV), DL, DV. apply H. Qed.
 
 Definition DS (s : fw * fenv) : Prop := f_out (fst s) = [] /\ D (fst s) (snd s).
 
@@ -243,26 +278,27 @@ Notation wsd := (wgen (fq_seed sc) (fq_mod sc)).
 Notation p0 := (fun d => d_produced (getd (fq_world sc) d)).
 Notation l0 := (fun d => d_level (getd (fq_world sc) d)).
 Notation v0 := (fun d => d_value_received (getd (fq_world sc) d)).
+Notation a0 := (fun d => d_accepts (getd (fq_world sc) d)).
 
-Theorem reach_in_DS s : f_out (fq_world sc) = [] -> reach_in sc s -> DS p0 l0 v0 s.
+Theorem reach_in_DS s : f_out (fq_world sc) = [] -> reach_in sc s -> DS p0 l0 v0 a0 s.
 Proof.
   intro O0. induction 1 as [s WF E|s o s' _ IH E|s t k p s' _ IH E|s s' _ IH E|s d en' _ IH E|s d ups s' _ IH E].
   - unfold do_fxop in E. cbn [fst snd] in E.
-    apply (DS_fin wsd p0 l0 v0 (fq_world sc) init_env (init_world (fl_fuel (fq_world sc)) (now (init_env (A:=fact))) (fq_world sc)) s O0); [|apply RL_init_world|exact E].
-    intro d. cbn. split; [lia|split; [reflexivity|intros _; lia]].
+    apply (DS_fin wsd p0 l0 v0 a0 (fq_world sc) init_env (init_world (fl_fuel (fq_world sc)) (now (init_env (A:=fact))) (fq_world sc)) s O0); [|apply RL_init_world|exact E].
+    intro d. cbn. split; [lia|split; [reflexivity|split; intros _; lia]].
   - destruct IH as [O H]. unfold do_fxop in E.
-    apply (DS_fin wsd p0 l0 v0 (fst s) (snd s) (run_uop (fl_fuel (fst s)) (now (snd s)) (fst s) o) s' O H); [apply RL_run_uop|exact E].
+    apply (DS_fin wsd p0 l0 v0 a0 (fst s) (snd s) (run_uop (fl_fuel (fst s)) (now (snd s)) (fst s) o) s' O H); [apply RL_run_uop|exact E].
   - destruct IH as [O H]. unfold do_fxop in E.
     destruct (apply_cmd wsd (snd s) (CSched t p (-5) (AUser k))) as [en'|en'] eqn:AC; [|discriminate].
     injection E as <-. cbn [fst snd]. split; [exact O|].
-    apply (D_same p0 l0 v0 (fst s) (fst s) (snd s) en'); [reflexivity| |exact H].
+    apply (D_same p0 l0 v0 a0 (fst s) (fst s) (snd s) en'); [reflexivity| |exact H].
     cbn in AC. unfold schedule in AC. destruct (t <? now (snd s)); [discriminate|]. injection AC as <-. reflexivity.
   - eapply step_DS; eauto.
   - destruct IH as [O H]. cbn [fst snd]. split; [exact O|].
-    apply (D_same p0 l0 v0 (fst s) (fst s) (snd s) en'); [reflexivity| |exact H].
+    apply (D_same p0 l0 v0 a0 (fst s) (fst s) (snd s) en'); [reflexivity| |exact H].
     unfold start_run, schedule in E. cbn in E. destruct (now (snd s) + d <? now (snd s)); [discriminate|]. injection E as <-. reflexivity.
   - destruct IH as [O H]. unfold do_fxop in E.
-    apply (DS_fin wsd p0 l0 v0 (fst s) (snd s) (late_create (fl_fuel (fst s)) (now (snd s)) (fst s) d ups) s' O H); [apply RL_late_create|exact E].
+    apply (DS_fin wsd p0 l0 v0 a0 (fst s) (snd s) (late_create (fl_fuel (fst s)) (now (snd s)) (fst s) d ups) s' O H); [apply RL_late_create|exact E].
 Qed.
 
 (** * C15: counters and last records *)
@@ -283,6 +319,13 @@ Proof. intros O HR. destruct (reach_in_DS s O HR) as [_ H]. apply H. Qed.
 Theorem sink_value_is_sum_of_records s d :
   f_out (fq_world sc) = [] -> reach_in sc s -> d_kind (getd (fst s) d) = KSink ->
   d_value_received (getd (fst s) d) = d_value_received (getd (fq_world sc) d) + sumrec L_RECEIVED d (datalog (snd s)).
+Proof. intros O HR. destruct (reach_in_DS s O HR) as [_ H]. apply H. Qed.
+
+(** every device of the world has taken in as many items as there are received-part records under its name (plus its initial count):
+    exactly one record per acceptance, no record without one *)
+Theorem accepts_is_received_record_count s d :
+  f_out (fq_world sc) = [] -> reach_in sc s -> amem d (f_devs (fst s)) = true ->
+  d_accepts (getd (fst s) d) = d_accepts (getd (fq_world sc) d) + cntrec L_RECEIVED d (datalog (snd s)).
 Proof. intros O HR. destruct (reach_in_DS s O HR) as [_ H]. apply H. Qed.
 
 End LogReach.
